@@ -305,8 +305,10 @@ class Pools(object):
         return self.pools[assertions].submit(fn, *args, **kw)
 
     def shutdown(self):
+        # wait=True: tearing the pipes down under a still running manager thread
+        # prints spurious "Bad file descriptor" tracebacks
         for p in self.pools:
-            p.shutdown(wait=False, cancel_futures=True)
+            p.shutdown(wait=True, cancel_futures=True)
 
 
 def evidence_dir():
